@@ -18,3 +18,5 @@ func wgBuildUnweighted(pm *openfgav1.AuthorizationModel) (*graph.WeightedAuthori
 func wgAssignInOrder(wg *graph.WeightedAuthorizationModelGraph, order []string) error {
 	return errors.New("hooks disabled")
 }
+
+func syntaxPositionsHook(err error) ([]errPos, bool) { return nil, false }
